@@ -20,7 +20,10 @@ def rand_mat(rnd, m, n, cplx, vmax=3, big=False):
 
 
 def np_of(rows, m, n, dt):
-    a = np.array([[complex(v[0], v[1]) for v in r] for r in rows], dtype=np.complex128).reshape(m, n)
+    a = np.array([[complex(v[0], v[1]) for v in r] for r in rows], dtype=np.complex128)
+    if a.size != m * n:        # a result of the wrong size: never equal to the expected matrix (the comparison fails, nothing crashes)
+        return np.full((m, n), np.nan, dtype=np.complex128 if dt in T.CPLX else np.float64)
+    a = a.reshape(m, n)
     return a.astype(T.npdt(dt)) if dt in T.CPLX else a.real.astype(T.npdt(dt))
 
 
@@ -128,13 +131,22 @@ def gen_cases(ctx, n_cases, gen, depth_max, bound=2 ** 20, accept=None):
     return cases
 
 
+def build_case(case):
+    """the operator of a case: plain constructors, or (key 'an') the same tree with TRUE annotation declarations at its nodes
+    (property C05's generator): annotations must not change the action or the dense form"""
+    if case.get("an"):
+        from props import c05
+        return c05.build(case["an"])
+    return T.build(case["tree"])
+
+
 def run_impl(case):
     """observables of the implementation on one case (public API only)"""
     t = case["tree"]
     m, n, k = case["m"], case["n"], case["k"]
     obs = {}
     try:
-        A = T.build(t)
+        A = build_case(case)
         X = np_of(case["X"], n, k, case["dx"])
         XL = np_of(case["XL"], k, m, case["dx"])
         obs["shape"] = list(A.shape)
@@ -166,7 +178,7 @@ def run_impl_left(case):
     m, n, k = case["m"], case["n"], case["k"]
     obs = {}
     try:
-        A = T.build(t)
+        A = build_case(case)
         XL = np_of(case["XL"], k, m, case["dx"])
         YL = XL @ A
         yl = XL[0] @ A
